@@ -132,6 +132,10 @@ var c13KinFamilies = []c13Family{
 	// phrase, which matches every value (a key built from the fields of the text identifies the two)
 	{Name: "spacing", Kin: true, T: "alpha  beta", T2: "alpha beta",
 		Roles: []string{"pm", "pm-alt", "pm-both"}},
+	// phrase lists (one phrase per line; "|" stands for the line break) that are the same text once their items are
+	// joined with blanks and differ in where one item ends and the next begins
+	{Name: "boundaries", Kin: true, T: "alpha beta|gamma", T2: "alpha|beta gamma",
+		Roles: []string{"cdataset", "cdataset-alt", "cfile", "cfile-alt"}},
 	// @restpath rewrites its argument into a pattern before compiling it; the other roles compile the text as it is
 	{Name: "template", Kin: true, T: `x{id}y`,
 		Roles: []string{"restpath", "regexkey", "regexexcl", "ctl"}},
@@ -202,6 +206,15 @@ func c13ResourceKind(a, b string) string {
 	return p[0] + "-vs-" + p[1]
 }
 
+// c13Lines: the content of a phrase list, one phrase per line. A text with "|" lists its phrases explicitly (they
+// may contain blanks); otherwise every word is a phrase.
+func c13Lines(t string) string {
+	if strings.Contains(t, "|") {
+		return strings.ReplaceAll(t, "|", "\n")
+	}
+	return strings.ReplaceAll(t, " ", "\n")
+}
+
 func c13RoleText(f *c13Family, role string) (string, map[string]string) {
 	T, rxPat := f.T, f.RxPat
 	if strings.HasSuffix(role, "-alt") {
@@ -228,11 +241,11 @@ func c13RoleText(f *c13Family, role string) (string, map[string]string) {
 		fmt.Fprintf(&sb, "SecRule ARGS:p \"@validateNid us %s\" \"id:2,phase:1,pass,capture\"\n", T)
 	case "cdataset":
 		// the text is the CONTENT of a data set (one phrase per line) under a fixed name
-		fmt.Fprintf(&sb, "SecDataset words `\n%s\n`\n", strings.ReplaceAll(T, " ", "\n"))
+		fmt.Fprintf(&sb, "SecDataset words `\n%s\n`\n", c13Lines(T))
 		sb.WriteString("SecRule ARGS:p \"@pmFromDataset words\" \"id:1,phase:1,pass,capture\"\n")
 	case "cfile":
 		// the text is the CONTENT of a phrase file under a fixed name
-		files = map[string]string{"words.data": strings.ReplaceAll(T, " ", "\n") + "\n"}
+		files = map[string]string{"words.data": c13Lines(T) + "\n"}
 		sb.WriteString("SecRule ARGS:p \"@pmFromFile words.data\" \"id:1,phase:1,pass,capture\"\n")
 	case "filedir-a", "filedir-b":
 		// ONE root for both variants; the relative file name is resolved against the directory of the
@@ -430,6 +443,8 @@ func c13Battery(family string) []c13Probe {
 		return append(ps, paths("/Alpha1", "/alpha1")...)
 	case "binarycase":
 		return pv("Al\xffha", "al\xffha", "AL\xffHA", "alha")
+	case "boundaries":
+		return pv("x alpha y", "x alpha beta y", "x beta gamma y", "x gamma y", "x beta y", "alpha beta gamma")
 	case "spacing":
 		return pv("x alpha y", "x beta y", "zzz", "", "alpha  beta")
 	case "rawbytes":
